@@ -184,6 +184,25 @@ def gen_parse(rng, spec):
         if tree:
             case["argv"][0].insert(rng.randint(0, len(case["argv"][0])), {"t": "cfg", "k": "cfg", "tree": tree, "via": rng.choice(["string", "file"]), "form": "eq"})
             case["sections"] = inner
+    # the variable that NAMES the subcommand (PREFIX_SUBCOMMAND, PREFIX_S1__SUBCOMMAND): an assignment to the subcommand key in the
+    # environment layer; a name on the command line comes later and wins
+    if case["method"] == "args" and path and rng.random() < 0.3:
+        mode = rng.choice(["same", "other", "instead"])
+        case["env_sub"] = {}
+        if mode == "instead":  # the last levels are chosen by the environment alone
+            depth = rng.randint(0, len(path) - 1)
+            case["argv_depth"] = depth
+            case["env_arg"] = True
+            for d in range(depth, len(path)):
+                case["env_sub"][".".join(path[:d])] = path[d]
+                case["argv"][d + 1] = []
+        for d in range(len(path)):
+            pre = ".".join(path[:d])
+            if pre in case["env_sub"] or rng.random() < 0.4:
+                continue
+            names = [n for n, _ in node_at(spec, path[:d])["subs"]]
+            others = [n for n in names if n != path[d]]
+            case["env_sub"][pre] = rng.choice(others) if mode == "other" and others else path[d]
     if case["method"] == "object":
         tree, _, _ = gen_sections(rng, spec, path, allow_append=False)
         cur = tree
@@ -326,9 +345,11 @@ def run_parse(parsers, spec, case, root_dir):
     for full, v in case.get("env_vars", {}).items():
         a, _ = arg_at(spec, full)
         env[env_name(spec, full)] = b.render(v, a["type"])
+    for pre, name in case.get("env_sub", {}).items():
+        env[env_name(spec, (pre + "." if pre else "") + "subcommand")] = name
     tmpn = [0]
     argv = []
-    for d, items in enumerate(case["argv"]):
+    for d, items in enumerate(case["argv"][: case.get("argv_depth", len(case["path"])) + 1]):
         if d:
             argv.append(case["path"][d - 1])
         argv += _render_items(spec, case["path"][:d], items, root_dir, tmpn)
@@ -549,14 +570,20 @@ def model_line(spec, hist, i):
         return out
 
     path = case["path"]
+    adepth = case.get("argv_depth", len(path))
+
+    def names_next(d):  # the subcommand variable of the parser at depth d names the next level of the path
+        return d < len(path) and case.get("env_sub", {}).get(".".join(path[:d])) == path[d]
+
     return {
-        "method": "tree",
+        "method": "tree", "env_sub": names_next(0),
         "parser": {"args": margs(spec["root"]), "env_prefix": spec.get("env_prefix"), "default_env": spec["default_env"],
                    "os_default_env": spec.get("os_default_env")},
         "shape": shape(spec["root"]),
         "setters": [[st["path"], st.get("os"), st["value"]] for st in hist[:i] if st["op"] == "set"],
         "path": path,
-        "levels": [{"name": path[d - 1], "parser": {"args": margs(node_at(spec, path[:d])), "default_env": False}, "argv": items(case["argv"][d])}
+        "levels": [{"name": path[d - 1], "parser": {"args": margs(node_at(spec, path[:d])), "default_env": False}, "argv": items(case["argv"][d]),
+                    "on_argv": d <= adepth, "env_sub": names_next(d)}
                    for d in range(1, len(path) + 1)],
         "argv": items(case["argv"][0]),
         "env": [[env_name(spec, full), b.enc(v)] for full, v in case.get("env_vars", {}).items()],
